@@ -15,8 +15,11 @@ Definition expand_tabs (size : nat) (s : str) : str :=
 Definition strip_trailing (s : str) : str :=
   join_on NL (map (rstrip is_sp) (split_on NL s)).
 
-Definition ends_with_nl (s : str) : bool :=
-  match rev s with c :: _ => c =? NL | [] => false end.
+Fixpoint ends_with_nl (s : str) : bool :=
+  match s with
+  | [] => false
+  | c :: r => match r with [] => c =? NL | _ :: _ => ends_with_nl r end
+  end.
 
 Definition ensure_nl (s : str) : str := if ends_with_nl s then s else s ++ [NL].
 
